@@ -113,6 +113,20 @@ func c19Family(name string, r *rand.Rand, thorough bool) *c19Scenario {
 			{c19Delete(101, 0), c19Create(101, "app", b0)},
 			{c19Create(102, "app", b0)},
 		}
+	case "update-vs-delete", "update-vs-delete-vs-claim":
+		// the owner renews / edits its mapping (what the create command itself does for
+		// the TTL) while its own delete runs; a deleted name must not come back
+		upd := []string{"future", "port"}[r.Intn(2)]
+		sc.Setup = []c19Op{c19Create(101, "app", b0)}
+		sc.Threads = [][]c19Op{
+			{{K: "update", C: 101, Ref: 0, Upd: upd}},
+			{c19Delete(101, 0)},
+		}
+		if name == "update-vs-delete-vs-claim" {
+			sc.Threads = append(sc.Threads, []c19Op{c19Create(103, "app", b0)})
+		} else if r.Intn(2) == 0 {
+			sc.Threads = append(sc.Threads, []c19Op{c19Lookup("app." + b0 + ":80")})
+		}
 	case "sweep-vs-claims":
 		// the production expiry sweep runs while other clients try to take a paused
 		// (inactive, unexpired) name, an expired name and an active name
@@ -527,7 +541,7 @@ func TestVerifC19Schedules(t *testing.T) {
 	rnd := run.Rand("families")
 	thorough := run.Thorough()
 
-	families := []string{"same-name", "diff-names", "same-client-two-names", "create-delete-lookup", "double-delete-reclaim", "nonowner-delete", "delete-reclaim-chain", "sweep-vs-claims", "random"}
+	families := []string{"same-name", "diff-names", "same-client-two-names", "create-delete-lookup", "double-delete-reclaim", "nonowner-delete", "delete-reclaim-chain", "update-vs-delete", "update-vs-delete-vs-claim", "sweep-vs-claims", "random"}
 	exploreRuns := run.Pick(12, 1500)
 	randomRuns := run.Pick(12, 700)
 	const maxSteps = 600
